@@ -57,6 +57,10 @@ func init() {
 				p.Jobs = append(p.Jobs, Job{Harness: "gonnx.H_C18_newmodel", Case: map[string]interface{}{"nopset": 1, "graph": true, "ninit": 2, "n0": 1, "n1": n1, "raw": true, "rawdt": rawdt, "ninfo": 0}})
 			}
 		}
+		// sparse initializers with arbitrary indices
+		for _, ninit := range []int{0, 1} {
+			p.Jobs = append(p.Jobs, Job{Harness: "gonnx.H_C18_newmodel", Case: map[string]interface{}{"nopset": 1, "graph": true, "ninit": ninit, "n0": 1, "n1": 0, "raw": false, "rawdt": 1, "ninfo": 0, "sparse": true, "anydtype": true}})
+		}
 		// an initializer that carries BOTH encodings (typed float_data and raw_data), their sizes agreeing or not
 		// with each other and with the dimensions
 		for _, n1 := range []int{1, 2, 3} {
